@@ -767,3 +767,249 @@ func rangesOverTable(p *Program, h *ssa.BasicBlock) bool {
 	}
 	return false
 }
+
+// ---------------------------------------------------------------------------
+// flowsFrom: v is computed from a value satisfying base, followed through
+// conversions, phis, local cells, results of repository functions (their
+// return operands) and parameters (the arguments at every call site).
+func flowsFrom(p *Program, v ssa.Value, base func(ssa.Value) bool, depth int, seen map[ssa.Value]bool) bool {
+	if v == nil || depth > 10 || seen[v] {
+		return false
+	}
+	seen[v] = true
+	if base(v) {
+		return true
+	}
+	switch x := v.(type) {
+	case *ssa.Phi:
+		for _, e := range x.Edges {
+			if flowsFrom(p, e, base, depth+1, seen) {
+				return true
+			}
+		}
+	case *ssa.ChangeType:
+		return flowsFrom(p, x.X, base, depth+1, seen)
+	case *ssa.Convert:
+		return flowsFrom(p, x.X, base, depth+1, seen)
+	case *ssa.Slice:
+		return flowsFrom(p, x.X, base, depth+1, seen)
+	case *ssa.MakeInterface:
+		return flowsFrom(p, x.X, base, depth+1, seen)
+	case *ssa.UnOp:
+		if al, ok := x.X.(*ssa.Alloc); ok {
+			if refs := al.Referrers(); refs != nil {
+				for _, rf := range *refs {
+					if st, ok := rf.(*ssa.Store); ok && st.Addr == ssa.Value(al) && flowsFrom(p, st.Val, base, depth+1, seen) {
+						return true
+					}
+				}
+			}
+			return false
+		}
+		return flowsFrom(p, x.X, base, depth+1, seen)
+	case *ssa.Extract:
+		if c, ok := x.Tuple.(*ssa.Call); ok {
+			return resultFlowsFrom(p, c, x.Index, base, depth, seen)
+		}
+	case *ssa.Call:
+		return resultFlowsFrom(p, x, 0, base, depth, seen)
+	case *ssa.Parameter:
+		g := x.Parent()
+		idx := -1
+		for i, q := range g.Params {
+			if q == x {
+				idx = i
+			}
+		}
+		if idx < 0 {
+			return false
+		}
+		for _, s := range p.CallSitesOf(g) {
+			if c, ok := s.instr.(ssa.CallInstruction); ok && len(c.Common().Args) == len(g.Params) {
+				if flowsFrom(p, c.Common().Args[idx], base, depth+1, seen) {
+					return true
+				}
+			}
+		}
+	case *ssa.FreeVar:
+		for _, bv := range freeVarBindings(x) {
+			if flowsFrom(p, bv, base, depth+1, seen) {
+				return true
+			}
+		}
+	}
+	return false
+}
+
+func resultFlowsFrom(p *Program, c *ssa.Call, idx int, base func(ssa.Value) bool, depth int, seen map[ssa.Value]bool) bool {
+	fns, _ := p.Callees(c)
+	for _, f := range fns {
+		if f == nil || len(f.Blocks) == 0 || pkgOf(f) == "" {
+			continue
+		}
+		for _, b := range f.Blocks {
+			if ret, ok := b.Instrs[len(b.Instrs)-1].(*ssa.Return); ok && idx < len(ret.Results) {
+				if flowsFrom(p, retValue(ret, idx), base, depth+1, seen) {
+					return true
+				}
+			}
+		}
+	}
+	return false
+}
+
+// monitorFilters: the methods of server.monitor that walk the row updates of a
+// database update (the notification filters).
+func monitorFilters(p *Program) []*ssa.Function {
+	var out []*ssa.Function
+	for _, fn := range p.srcFuncs {
+		if pkgOf(fn) != "server" || fn.Parent() != nil || fn.Signature.Recv() == nil || !isNamed(fn.Signature.Recv().Type(), repoMod+"/server", "monitor") {
+			continue
+		}
+		hit := false
+		for _, g := range append([]*ssa.Function{fn}, fn.AnonFuncs...) {
+			for _, b := range g.Blocks {
+				for _, ins := range b.Instrs {
+					if c, ok := ins.(*ssa.Call); ok && c.Call.IsInvoke() && c.Call.Method.Name() == "ForEachRowUpdate" {
+						hit = true
+					}
+				}
+			}
+		}
+		if hit {
+			out = append(out, fn)
+		}
+	}
+	return out
+}
+
+// ---------------------------------------------------------------------------
+// S-ALLCOLS — RFC 7047 4.1.5: a monitor request that omits "columns" monitors
+// all columns. Structural necessary condition: somewhere in what each
+// notification filter reaches, a value that flows from MonitorRequest.Columns
+// is tested for absence (compared with nil, or its length compared with a
+// constant); a filter that only ever ranges over the listed columns projects
+// every row of such a monitor on _uuid alone.
+
+func ruleSALLCOLS(p *Program, r *Reporter) {
+	const id = "S-ALLCOLS"
+	colsFld := p.Field("ovsdb", "MonitorRequest", "Columns")
+	filters := monitorFilters(p)
+	if colsFld == nil || len(filters) == 0 {
+		r.Anchor(id, "ovsdb.MonitorRequest.Columns / notification filters of server.monitor")
+		return
+	}
+	base := func(v ssa.Value) bool {
+		switch x := v.(type) {
+		case *ssa.FieldAddr:
+			return fieldOfAddr(x) == colsFld
+		case *ssa.UnOp:
+			if fa, ok := x.X.(*ssa.FieldAddr); ok {
+				return fieldOfAddr(fa) == colsFld
+			}
+		case *ssa.Field:
+			if st, ok := x.X.Type().Underlying().(*types.Struct); ok {
+				return st.Field(x.Field) == colsFld
+			}
+		}
+		return false
+	}
+	for _, fn := range filters {
+		tested := false
+		var pos token.Pos = fn.Pos()
+		for _, g := range p.Reach(fn) {
+			if pkgOf(g) != "server" {
+				continue
+			}
+			for _, b := range g.Blocks {
+				for _, ins := range b.Instrs {
+					bo, ok := ins.(*ssa.BinOp)
+					if !ok {
+						continue
+					}
+					switch bo.Op {
+					case token.EQL, token.NEQ, token.LSS, token.GTR, token.LEQ, token.GEQ:
+					default:
+						continue
+					}
+					for _, pair := range [][2]ssa.Value{{bo.X, bo.Y}, {bo.Y, bo.X}} {
+						subj, other := pair[0], pair[1]
+						k, isC := other.(*ssa.Const)
+						if !isC {
+							continue
+						}
+						if k.IsNil() {
+							if _, isSlice := subj.Type().Underlying().(*types.Slice); isSlice && flowsFrom(p, subj, base, 0, map[ssa.Value]bool{}) {
+								tested, pos = true, bo.Pos()
+							}
+							continue
+						}
+						if lx, isLen := lenOperand(subj); isLen {
+							if _, isSlice := lx.Type().Underlying().(*types.Slice); isSlice && flowsFrom(p, lx, base, 0, map[ssa.Value]bool{}) {
+								tested, pos = true, bo.Pos()
+							}
+						}
+					}
+				}
+			}
+		}
+		r.Ob(id, funcName(fn), "omitted columns told apart from listed ones", pos, tested, true,
+			ifs(tested, "the requested column list is tested for absence before the projection is set up", "nothing "+funcName(fn)+" reaches ever asks whether the request listed columns at all: a monitor registered without \"columns\" (all columns, RFC 7047 4.1.5) has its notifications projected on _uuid alone and a replica fed by them loses the contents of every row"))
+	}
+}
+
+// ---------------------------------------------------------------------------
+// S-NOEMPTY — a table is only added to a notification when at least one row
+// update survived the filter: every store into a TableUpdates / TableUpdates2
+// map in what the notification filters reach is entered under a branch fact on
+// the length of the stored table update (Send* only test the number of tables).
+
+func ruleSNOEMPTY(p *Program, r *Reporter) {
+	const id = "S-NOEMPTY"
+	filters := monitorFilters(p)
+	if len(filters) == 0 {
+		r.Anchor(id, "notification filters of server.monitor")
+		return
+	}
+	n := 0
+	seenFn := map[*ssa.Function]bool{}
+	for _, fn := range filters {
+		for _, g := range p.Reach(fn) {
+			if pkgOf(g) != "server" || seenFn[g] {
+				continue
+			}
+			seenFn[g] = true
+			fc := newFlowCtx(g)
+			for _, b := range g.Blocks {
+				for _, ins := range b.Instrs {
+					mu, ok := ins.(*ssa.MapUpdate)
+					if !ok {
+						continue
+					}
+					if !isNamed(mu.Map.Type(), repoMod+"/ovsdb", "TableUpdates") && !isNamed(mu.Map.Type(), repoMod+"/ovsdb", "TableUpdates2") {
+						continue
+					}
+					n++
+					guarded := false
+					for _, f := range conjunctFacts(b) {
+						c, _ := normFact(f)
+						bo, ok := c.(*ssa.BinOp)
+						if !ok {
+							continue
+						}
+						for _, side := range []ssa.Value{bo.X, bo.Y} {
+							if lx, isLen := lenOperand(side); isLen && fc.valEquiv(lx, mu.Value, bo, mu, 0) {
+								guarded = true
+							}
+						}
+					}
+					r.Ob(id, funcName(g), "table added only when a row update survived", mu.Pos(), guarded, true,
+						ifs(guarded, "the store is entered under a test of the table update's length", "the table update is stored whatever it holds: a transaction whose changes to this table are all of a kind the monitor did not select still produces a notification ({\"Table\":{}}), because Send/Send2/Send3 only count tables"))
+				}
+			}
+		}
+	}
+	if n < 2 {
+		r.Anchor(id, "stores into TableUpdates/TableUpdates2 in the notification filters")
+	}
+}
